@@ -25,9 +25,10 @@ def run(tier, argv):
     quick = tier == "quick"
     kf = {f["id"]: f for f in vlib.known_findings(PROP) if f["status"] == "known"}
     maxlen = 5 if quick else 7
+    expd = "3" if quick else "2"        # exponent digits (the normal form of 1e9999 has ten thousand digits)
     # 1. spec: implementation-shaped scanner/normaliser against the exact value on every numeral (I = R), with the
     #    recorded switch on (that is the model of the pinned tree) the only disagreement must be the recorded one
-    r = vlib.tlc(work, "NumProduct", "NumProduct.cfg", consts={"Alphabet": ALPHA, "MaxLen": str(maxlen), "ZeroMantissaExpRejected": "FALSE"},
+    r = vlib.tlc(work, "NumProduct", "NumProduct.cfg", consts={"Alphabet": ALPHA, "MaxLen": str(maxlen), "MaxExpDigits": expd, "ZeroMantissaExpRejected": "FALSE"},
                  timeout=3000, workers=8, heap="12g")
     rep.add_tlc(r, "NumProduct len<=%d, repaired model (SameLanguage, SameValue, SameFracLen, Canonical)" % maxlen)
     r = vlib.tlc(work, "NumPairs", "NumPairs.cfg", consts={"Alphabet": ALPHA, "PairLen": "3" if quick else "4", "ZeroMantissaExpRejected": "FALSE"},
@@ -38,7 +39,7 @@ def run(tier, argv):
         raise vlib.Infra("vacuous: switch SignBeforeZero no longer violates CmpAgrees")
     # 2. export cases (with the pinned-tree model's prediction pred_ok)
     raw = work.path("cases.txt")
-    r = vlib.tlc(work, "NumProduct", "NumProduct.cfg", consts={"Alphabet": ALPHA, "MaxLen": str(maxlen), "Export": "TRUE"},
+    r = vlib.tlc(work, "NumProduct", "NumProduct.cfg", consts={"Alphabet": ALPHA, "MaxLen": str(maxlen), "MaxExpDigits": expd, "Export": "TRUE"},
                  to_file=raw, allow_violation=True, extra=["-continue"], timeout=3000, workers=1, heap="12g")
     cases = work.path("cases.ndjson")
     n = 0
